@@ -44,10 +44,9 @@ Theorem dec_begin_guard ep x probes :
   | _ => False
   end.
 Proof.
-  unfold gen_dec_begin, dec_decode. destruct (dw_orecv (d_work x) + dw_rrecv (d_work x) <? dw_K (d_work x)); [reflexivity|].
-  destruct (N.eqb_spec (dw_orecv (d_work x)) (dw_K (d_work x))) as [E|E]; cbn [snd].
-  - split; [exact E|]. eexists. reflexivity.
-  - split; [exact E|]. eexists. eexists. reflexivity.
+  unfold gen_dec_begin, dec_decode. cbv zeta.
+  repeat (split_cmp; cbn [negb andb orb snd]; try (exfalso; lia)); cbn [snd];
+    first [ reflexivity | split; [lia|eexists; reflexivity] | split; [lia|eexists; eexists; reflexivity] ].
 Qed.
 End J.
 
@@ -78,7 +77,7 @@ Theorem enc_recovery_guard ep x probes : ew_recv (e_work x) = ew_K (e_work x) ->
        (map (fun i => (i, enc_recovery_of (encode_shards junk ep x) (ew_R (e_work x)) (ew_sb (e_work x)) i)) probes).
 Proof.
   intros H. unfold enc_encode. rewrite H, N.eqb_refl. cbn [negb snd]. f_equal. apply map_ext. intros i.
-  unfold enc_recovery_of, gen_enc_recovery. destruct (i <? ew_R (e_work x)); reflexivity.
+  unfold enc_recovery_of, gen_enc_recovery. guard_exec.
 Qed.
 
 Definition dec_restored_of (out : list (list N)) (obase K sb : N) (recv : N -> bool) (i : N) : option bytes :=
@@ -100,9 +99,7 @@ Proof.
   set (r := dec_restored_of (decode_work junk ep x) (dw_obase w) (dw_K w) (dw_sb w) (pmem (dw_received w))).
   assert (E : forall i, (if (i <? dw_K w) && negb (pmem (dw_received w) (dw_obase w + i))
                          then option_map bytes_of_syms (nth_error (decode_work junk ep x) (N.to_nat (dw_obase w + i))) else None) = r i).
-  { intros i. unfold r, dec_restored_of, gen_dec_restored. rewrite (N.ltb_antisym (dw_K w) i).
-    destruct (dw_K w <=? i); cbn [negb andb]; [reflexivity|]. cbv zeta.
-    destruct (pmem (dw_received w) (dw_obase w + i)); reflexivity. }
+  { intros i. unfold r, dec_restored_of, gen_dec_restored. guard_exec. }
   f_equal; [apply flat_map_ext|apply map_ext]; intros i; rewrite E; reflexivity.
 Qed.
 End Acc.
